@@ -42,6 +42,53 @@ func init() {
 		if !has("len(rev)", token.LSS, "iHeaderLen") {
 			anchorLost("tars/protocol/tarsprotocol.go: TarsRequest: comparison `len(rev) < iHeaderLen` not found")
 		}
+		// the reassembly buffer is per connection: in both receive loops the argument of
+		// ParsePackage is a plain identifier declared inside that function by `var x []byte`
+		// (a fresh nil slice for every activation of the loop, i.e. for every connection) and the
+		// function assigns to no struct field holding bytes. Model: `reconnect` = Conn.init.
+		for _, loc := range [][2]string{{"tars/transport/tcphandler.go", "tcpHandler.recv"},
+			{"tars/transport/tarsclient.go", "connection.recv"}} {
+			f := parse(loc[0])
+			if f == nil {
+				continue
+			}
+			d := f.funcDecl(loc[1])
+			if d == nil {
+				continue
+			}
+			localSlices := map[string]bool{}
+			var args []ast.Expr
+			ast.Inspect(d.Body, func(n ast.Node) bool {
+				switch x := n.(type) {
+				case *ast.DeclStmt:
+					if gd, ok := x.Decl.(*ast.GenDecl); ok && gd.Tok == token.VAR {
+						for _, sp := range gd.Specs {
+							vs := sp.(*ast.ValueSpec)
+							if len(vs.Values) == 0 && vs.Type != nil && exprStr(f.fset, vs.Type) == "[]byte" {
+								for _, nm := range vs.Names {
+									localSlices[nm.Name] = true
+								}
+							}
+						}
+					}
+				case *ast.CallExpr:
+					if sel, ok := x.Fun.(*ast.SelectorExpr); ok && sel.Sel.Name == "ParsePackage" && len(x.Args) == 1 {
+						args = append(args, x.Args[0])
+					}
+				}
+				return true
+			})
+			if len(args) == 0 {
+				anchorLost("%s: %s: call of ParsePackage not found", loc[0], loc[1])
+			}
+			for _, a := range args {
+				id, ok := a.(*ast.Ident)
+				if !ok || !localSlices[id.Name] {
+					anchorLost("%s: %s: the reassembly buffer `%s` handed to ParsePackage is not a `var … []byte` local of the receive loop (state that survives the connection?)",
+						loc[0], loc[1], exprStr(f.fset, a))
+				}
+			}
+		}
 		// size of the read buffer of both receive loops (`make([]byte, 1024*4)`): the harness
 		// reports whether its scripted chunks fit one read; no theorem depends on it
 		for _, loc := range [][3]string{{"tars/transport/tcphandler.go", "tcpHandler.recv", "frameServerReadBuf"},
